@@ -152,13 +152,26 @@ class MHistory:
                 # work piles up while no master runs: the new master's first cycle has to evict / move
                 for _ in range(self.rng.randint(1, 3)):
                     d.op_create_apps(priority=self.rng.choice([50, 100, 100]))
-            if i in restart_at and self.rng.random() < 0.35:
-                # a node goes away while no master runs: the records of a server that hosts something are met by the
-                # new master's start-up path only
+            if i in restart_at and self.rng.random() < 0.5:
+                # things change while no master runs: the records of a server that hosts something are met by the
+                # new master's start-up path only - its node goes away, it is re-labelled into another partition or
+                # shrinks (its instances move between servers that are up), an identity group shrinks below an
+                # identity a placed member holds
                 hosts = sorted(s for s in d.node_clients if d.srv.children(d.z.path.placement(s)))
-                if hosts:
-                    d.op_presence_down(self.rng.choice(hosts))
-                    self.ctx.count('node_lost_during_master_outage')
+                what = self.rng.choice(['node-lost', 'node-lost', 'relabel', 'shrink'])
+                if self.rng.random() < 0.45 and d.op_group_squeeze():
+                    self.ctx.count('identity_group_shrunk_during_master_outage')
+                elif hosts:
+                    victim = self.rng.choice(hosts)
+                    if what == 'node-lost':
+                        d.op_presence_down(victim)
+                        self.ctx.count('node_lost_during_master_outage')
+                    elif what == 'relabel' and len(d.labels) > 1:
+                        d.op_server_attrs(victim)
+                        self.ctx.count('server_relabelled_during_master_outage')
+                    elif what == 'shrink':
+                        d.op_server_cap(victim)
+                        self.ctx.count('server_capacity_changed_during_master_outage')
             if self.rng.random() < 0.6:
                 d.op_running()
             if i in restart_at and self.rng.random() < 0.2:
